@@ -4,6 +4,7 @@ option grammars (pflag: docker run/exec are non-interspersed, everything else in
 import json
 import os
 import subprocess
+import time
 
 import vp
 
@@ -65,6 +66,14 @@ class Env:
                 os.unlink(p)
         vp.rmtree(self.tmp)
         os.makedirs(self.tmp)
+        # somebody else's temporary directory (tempfile's naming scheme), three days old: not this run's to remove
+        foreign = os.path.join(self.tmp, ".tmpQ7xK2f")
+        os.makedirs(os.path.join(foreign, "data"))
+        with open(os.path.join(foreign, "data", "precious.db"), "w") as f:
+            f.write("another process's state")
+        old = time.time() - 3 * 86400
+        for p_ in (os.path.join(foreign, "data", "precious.db"), os.path.join(foreign, "data"), foreign):
+            os.utime(p_, (old, old))
         if self.as_nobody:
             os.chown(self.tmp, 65534, 65534)
             for p in (self.bin, self.root):
@@ -95,6 +104,11 @@ class Env:
             for line in open(self.log):
                 log.append(json.loads(line))
         leftovers = sorted(os.listdir(self.tmp)) if not tmp_above_fixture else sorted(set(os.listdir(self.root)) - root_before)
+        if not tmp_above_fixture:
+            if os.path.exists(os.path.join(foreign, "data", "precious.db")):
+                leftovers.remove(".tmpQ7xK2f")
+            else:
+                leftovers.append("REMOVED although it is not this run's: .tmpQ7xK2f/data/precious.db (another process's temporary directory, three days old)")
         return rc, err, log, leftovers
 
 
